@@ -443,6 +443,37 @@ Definition ens_of_mols (ms : list mol) : option ens :=
 Definition read_ens (text : str) : option ens :=
   match read_all true text with Some ms => ens_of_mols ms | None => None end.
 
+(* ---------------------------------------------------------------- views: the written object need not own its atoms
+   molli hands out objects whose atoms belong to (and point back at) another container: Substructure views
+   (mol.heavy, mol.substructure(sel) -- any subset in any order), Conformer views (ens[k], = conformer_mol above),
+   structures whose Atom objects were adopted by a second structure afterwards.  Both writers number the ends of
+   a bond by `self.atoms.index(b.a1)`: the position in the atom list of the object BEING WRITTEN (first
+   occurrence), whatever the atom's back-reference says. *)
+Fixpoint pos_in (i : N) (sel : list N) (k : N) : option N :=          (* k + sel.index(i) *)
+  match sel with [] => None | j :: r => if i =? j then Some k else pos_in i r (N.succ k) end.
+Fixpoint pick {A} (l : list A) (sel : list N) : list A :=              (* [parent.get_atom(i) for i in sel] *)
+  match sel with
+  | [] => []
+  | i :: r => match nthN l i with Some a => a :: pick l r | None => pick l r end
+  end.
+(* Substructure.__init__: `for b in parent.bonds: if b.a1 in self.atoms and b.a2 in self.atoms` -- the bond
+   objects of the parent, in the parent's order; written with the ends renumbered by position in the view *)
+Definition view_bond (sel : list N) (b : bond) : option bond :=
+  match pos_in (b_a1 b) sel 0, pos_in (b_a2 b) sel 0 with
+  | Some i, Some j => Some (mk_bond i j (b_ty b))
+  | _, _ => None
+  end.
+Fixpoint view_bonds (sel : list N) (bs : list bond) : list bond :=
+  match bs with
+  | [] => []
+  | b :: r => match view_bond sel b with Some b' => b' :: view_bonds sel r | None => view_bonds sel r end
+  end.
+(* the view of m on the atom positions sel, as the writer sees it; nm: the name it is written under (a
+   Substructure has no name of its own) *)
+Definition sub_view (nm : str) (m : mol) (sel : list N) : mol :=
+  mk_mol nm (pick (m_atoms m) sel) (view_bonds sel (m_bonds m)).
+Definition wf_sel (na : N) (sel : list N) : bool := forallb (fun i => i <? na) sel.
+
 (* ================================================================== Part 4: well-formedness, normal form *)
 (* the property's side conditions: blank-free labels (an empty one is replaced by the symbol), a name that
    is one line and survives str.strip(), bond endpoints that are atoms of the molecule *)
@@ -518,15 +549,21 @@ Inductive case :=
 | CMol (wq : bool) (input : mol RV) (written : list str) (readback : mol RV)
 | CAll (wq : bool) (input : list (mol RV)) (written : list str) (readback : list (mol RV))
 | CEns (input : ens RV) (written : list str) (readback : ens RV)
+| CView (wq : bool) (nm : str) (parent : mol RV) (sel : list N) (written : list str) (readback : mol RV)
+                               (* parent.substructure(sel) / parent.heavy written under the name nm *)
+| CConf (input : ens RV) (k : N) (written : list str) (readback : mol RV)      (* ens[k] written on its own *)
 | CWs (points : list N).       (* every code point below 12289 for which CPython's str.isspace() holds *)
 
 (* (1) the model writes exactly the lines molli wrote; (2) the model reads molli's text into exactly what
    molli read; (3) that is the normal form the round-trip theorem speaks of *)
+Definition check_mol (wq : bool) (m : mol RV) (w : list str) (r : mol RV) : bool :=
+  list_eqb str_eqb (mol_lines RV wq m) w
+  && match read RV wq (text_of w) with Some r' => mol_obs_eqb r' r && mol_obs_eqb r' (norm RV wq m) | None => false end.
 Definition check_case (c : case) : bool :=
   match c with
-  | CMol wq m w r =>
-      list_eqb str_eqb (mol_lines RV wq m) w
-      && match read RV wq (text_of w) with Some r' => mol_obs_eqb r' r && mol_obs_eqb r' (norm RV wq m) | None => false end
+  | CMol wq m w r => check_mol wq m w r
+  | CView wq nm p sel w r => wf_sel (lenN (m_atoms p)) sel && check_mol wq (sub_view RV nm p sel) w r
+  | CConf e k w r => match nthN (e_confs e) k with Some c => check_mol true (conformer_mol RV e c) w r | None => false end
   | CAll wq ms w rs =>
       list_eqb str_eqb (concat (map (mol_lines RV wq) ms)) w
       && match read_all RV wq (text_of w) with
